@@ -678,7 +678,7 @@ example : ((gVerifyIds V.fld exampleVCS 0 [[5, 6]] (fun _ => 0) { fixed := [7], 
 l_i_s[offset..])` over `evaluate_lagrange_polynomials((-max_rot)..(max_len + |min_rot|))` with the
 minimum / maximum over the queries themselves (in-circuit) equals `compute_inner_product` over
 `l_i_range` with the fold of `(min, max)` started at `(0, 0)` (off-circuit), query by query, for all
-instance columns and rotations within the domain — wherever the gadget does not panic. -/
+instance columns and rotations within the domain (the block never fails: `gadget_instance_evals_total`). -/
 theorem gadget_instance_evals_eq (f : Fld) [NeZero f.p] (cs : VCS) (nc x : ℕ) (plain : List (List ℕ))
     (cev : ℕ → ℕ) (v : List ℕ) (hd : DomainOK f cs.k)
     (hrot : ∀ q ∈ cs.instanceQueries, q.2 ≤ ((2 ^ cs.k : ℕ) : ℤ))
@@ -715,18 +715,39 @@ theorem neg_g_key_consistent : Consts.negGKeys = List.replicate 5 "-G" := by dec
 mapped to itself (the model evaluates the point of rotation `r` as `x·ω^r`). -/
 theorem get_point_arms_generated : Consts.getPointArms = [(-1, -1), (0, 0), (1, 1)] := by decide
 
-/-- The hypothesis `gVerifyIds … = some r` of `gadget_ids_eq_off_circuit` is a real restriction: for
-a constraint system without instance queries the gadget panics (`.min().unwrap()` in the
-`instance_evals` block — known finding `gadget-fails:no-instance-query`), although the off-circuit
-verifier handles it (`verifyIds` is total). -/
-theorem gadget_needs_instance_query :
-    gVerifyIds V.fld
+/-- **The instance block of the gadget is total** (full-strength statement replacing the former
+witness `gadget_needs_instance_query`; the code was repaired by `fix: the in-circuit verifier
+handles an inner circuit without instance queries`): for EVERY constraint system — also one without
+any instance query (`min()/max()` of an empty iterator, now `unwrap_or(0)`) and also for plain
+instance columns without values (`inner_product` of an empty input, now the constant zero) — the
+`instance_evals` block of `verify_algebraic_constraints` does not panic and computes exactly the
+off-circuit instance evaluations, on every domain satisfying `DomainOK` with the query rotations
+within the domain. No "wherever the gadget does not panic" side condition is left for this block. -/
+theorem gadget_instance_evals_total (f : Fld) [NeZero f.p] (cs : VCS) (nc x : ℕ) (plain : List (List ℕ))
+    (cev : ℕ → ℕ) (hd : DomainOK f cs.k) (hrot : ∀ q ∈ cs.instanceQueries, q.2 ≤ ((2 ^ cs.k : ℕ) : ℤ)) :
+    gInstanceEvals f cs nc x plain cev =
+      some (instanceEvals f cs nc x (xnOf f.p cs.k x) ((plain.map List.length).foldl max 0) plain cev) :=
+  gInstanceEvals_total f cs nc x plain cev hd hrot
+
+/-- The two boundary cases on concrete data (kernel evaluation): no instance query ↦ `some []`;
+one queried instance column without values ↦ the evaluation `0`; and the gadget's whole
+computation goes through on the constraint system of the former witness (2 identity values). -/
+theorem gadget_handles_no_instance_query :
+    gInstanceEvals V.fld { exampleVCS with instanceQueries := [] } 0 9 [] (fun _ => 0) = some [] ∧
+    gInstanceEvals V.fld exampleVCS 0 9 [[]] (fun _ => 0) = some [0] ∧
+    (gVerifyIds V.fld
       { gates := [[.prod (.advice 0 0) (.fixed 0 0)]], lookups := [], trash := [], permCols := [(.advice, 0)],
         adviceQueries := [(0, 0)], fixedQueries := [(0, 0)], instanceQueries := [], degree := 4, blinding := 2, k := 3 }
       0 [] (fun _ => 0) { fixed := [7], permCommon := [11] }
       { theta := 2, beta := 3, gamma := 4, trash := 5, y := 6, x := 9, user := [] }
-      { advice := [8], inst := [], permSets := [{ eval := 21, next := 22, last := none }], lookups := [], trash := [] } = none := by
+      { advice := [8], inst := [], permSets := [{ eval := 21, next := 22, last := none }], lookups := [], trash := [] }).map
+        (·.ids.length) = some 4 := by
   decide +kernel
+
+/-- Historical witness (the code as pinned before the repair): `.min().unwrap()` over the rotations
+of the instance queries panics when there is none (`pinnedRotMinMax` = that computation), whereas
+the repaired `rotMinMax` returns `(0, 0)` as the off-circuit fold does. -/
+theorem pinned_gadget_needs_instance_query : pinnedRotMinMax [] = none ∧ rotMinMax [] = (0, 0) := by decide
 
 /-! ### the multi-opening: the accumulator as formal linear combinations over base identifiers
 
